@@ -40,6 +40,10 @@ func (s *Set) String() string {
 		for code := node.Begin; code <= node.End; code++ {
 			codes += space + fmt.Sprintf("%v", code)
 			space = " "
+			if code == math.MaxInt32 {
+				// the largest rune has no successor to compare with node.End
+				break
+			}
 		}
 		node = node.Forward
 	}
